@@ -708,3 +708,47 @@ def narrowing_rule(ck, prog, rule, in_scope, floor_scope=1):
         ck.anchor_lost(rule, "only %d functions in the scope of the narrowing rule" % nscope)
     elif bad == 0:
         ck.holds(rule, "narrowing/scope#0", "libscpi/src", "%d functions: no parameter is narrowed implicitly on its way to a callee, a field or a caller" % nscope)
+
+
+def field_aliases(f, suffix):
+    """Locals of f that stand for the context field whose access path ends in `suffix` (`size_t remaining =
+    context->arbitrary_remaining; ...; context->arbitrary_remaining = remaining;`): initialised or assigned from the field,
+    the field itself only ever stored from that local, and on every path a modification of the local is followed by the
+    write-back.  A test of such a local after the write-back is a test of the field."""
+    from sa import paths as P_
+    from sa import cfg as C_
+    cand = set()
+    for dn in f.nodes.values():
+        if dn.k == "DeclStmt":
+            for dd in dn.get("decls", []):
+                if "init" in dd and (f.nodes[dd["init"]].strip_all_casts().get("path") or "").endswith(suffix):
+                    cand.add(dd["name"])
+    for n, t in C_.stores(f):
+        if n.get("op") == "=" and t.k == "DeclRefExpr" and (n.child(1).strip_all_casts().get("path") or "").endswith(suffix):
+            cand.add(t.get("path"))
+    out = set()
+    for name in cand:
+        fstores = [n for n, t in C_.stores(f) if (t.get("path") or "").endswith(suffix)]
+        if not fstores or any(n.get("op") != "=" or n.child(1).strip_all_casts().get("path") != name for n in fstores):
+            continue
+        ok = True
+        try:
+            sums = P_.summarize(f)
+        except Exception:
+            continue
+        for ps in sums:
+            last_mod = last_wb = None
+            for i, e in enumerate(ps.events):
+                if e[0] != "store":
+                    continue
+                t = C_.store_target(e[1])
+                if t.get("path") == name and not (e[1].get("op") == "=" and
+                                                  (e[1].child(1).strip_all_casts().get("path") or "").endswith(suffix)):
+                    last_mod = i
+                elif (t.get("path") or "").endswith(suffix):
+                    last_wb = i
+            if last_mod is not None and (last_wb is None or last_wb < last_mod):
+                ok = False
+        if ok:
+            out.add(name)
+    return out
